@@ -169,13 +169,20 @@ def render(case):
             faults.append({"file": fid, "line": 0, "classes": ["OrphanedPage"], "kind": "orphan", "in": "page", "n": p["name"]})
         body = render_blocks(p["blocks"], fid, faults, len(head), "page")
         sel = p.get("selector")
+        if sel == "both_inc":
+            # the misplaced tabs-selector sits in an included file: the diagnostic belongs to that file, at its line there
+            inc_id = "includes/selector-" + p["name"].replace("/", "-") + ".rst"
+            files["source/" + inc_id] = "\n".join(["Included selector.", "", ".. tabs-selector:: drivers", "", ".. tabs-drivers::", "", "   tabs:", "     - id: python",
+                                                    "       content: |", "         py text", "     - id: shell", "       content: |", "         sh text", ""]) + "\n"
+            faults.append({"file": inc_id, "line": 2, "classes": ["UnexpectedDirectiveOrder"], "kind": "selector_order_in_include", "in": "include", "n": 0})
+            body += [".. include:: /" + inc_id, ""]
         if sel in ("tabs", "both"):
             if sel == "both":
                 faults.append({"file": fid, "line": len(head) + len(body), "classes": ["UnexpectedDirectiveOrder"],
                                "kind": "selector_order", "in": "page", "n": 0})
             body += [".. tabs-selector:: drivers", "", ".. tabs-drivers::", "", "   tabs:", "     - id: python", "       content: |", "         py text",
                      "     - id: shell", "       content: |", "         sh text", ""]
-        if sel in ("method", "both"):
+        if sel in ("method", "both", "both_inc"):
             body += [".. method-selector::", "", "   .. method-option::", "      :id: driver", "", "      .. method-description::", "", "         Desc.", "",
                      "      Body.", "", "   .. method-option::", "      :id: cli", "", "      .. method-description::", "", "         Desc 2.", "", "      Body 2.", ""]
         files["source/" + fid] = "\n".join(head + body) + "\n"
@@ -634,7 +641,7 @@ class C14(core.PropertyCheck):
         # misplaced when the same page has a method-selector): what one page queued must not surface on another
         for p in pages:
             if rng.random() < 0.3:
-                p["selector"] = rng.choice(["tabs", "tabs", "method", "both"])
+                p["selector"] = rng.choice(["tabs", "tabs", "method", "both", "both_inc"])
         includes = []
         for i in range(rng.choice([0, 1, 1, 2])):
             inc = {"name": f"shared-{i}", "blocks": blocks(PAGE_FAULTS, 1, 3, 0.8)}
